@@ -16,13 +16,18 @@ def alpn_extra(prop, tier, seed):
                 lens.add(rnd.randint(1, MAXLEN))
             lens = sorted(lens)
         for bi in range(0, len(lens), 2000):
-            ops = [dict(op="RT", pfx=pfx, n=n, alpha="b64") for n in lens[bi:bi + 2000]]
+            ops = []
+            for j, n in enumerate(lens[bi:bi + 2000]):
+                if j % 40 == 0:
+                    # a rejected list (good entries, then a bad one) in between: later round trips must not see any of it
+                    ops.append(dict(op="Mal", pfx=pfx, cls="goodThenBad"))
+                ops.append(dict(op="RT", pfx=pfx, n=n, alpha="b64"))
             out.append(dict(id="rt_%s_%d" % (pfx, bi), ops=ops))
         # other payload alphabets (the property speaks of every payload): percent signs / format verbs, printable ASCII, any byte
         alens = sorted(set([1, 2, budget - 1, budget, budget + 1, 3 * budget + 5, 100 * budget, 101 * budget + 1] + [rnd.randint(1, MAXLEN // 3) for _ in range(60 if tier == "quick" else 3000)]))
         for alpha in ("pct", "print", "bytes"):
             out.append(dict(id="rt_%s_%s" % (pfx, alpha), ops=[dict(op="RT", pfx=pfx, n=n, alpha=alpha) for n in alens]))
-        mal = [dict(op="Mal", pfx=pfx, cls=c) for c in ["bare", "short1", "short2", "nodash", "onlydash", "mixedshort", "empties", "none"]]
+        mal = [dict(op="Mal", pfx=pfx, cls=c) for c in ["bare", "short1", "short2", "nodash", "onlydash", "mixedshort", "empties", "none", "goodThenBad"]]
         mal += [dict(op="Mal", pfx=pfx, cls="random") for _ in range(200 if tier == "quick" else 5000)]
         out.append(dict(id="mal_%s" % pfx, ops=mal))
     return out
